@@ -412,7 +412,7 @@ def _uncaught(impl):
 
 
 def spec_requests(case, impl):
-    if _uncaught(impl):
+    if "outs" not in impl or _uncaught(impl):
         return []
     if case["kind"] == "buf":
         return [line(ID, "bspec", _wbops(case), [_wval(o[0]) for o in impl["outs"]])]
